@@ -847,6 +847,19 @@ impl Check for C01Check {
                             let _ = chronobox::ChannelId::try_from(x).map(|v| u8::from(v));
                             n += 7;
                         }
+                        // position indices (usize) of the wire / pad maps
+                        for x in (0..70_000usize).chain([usize::MAX, usize::MAX - 1, 1 << 32, 1 << 31]) {
+                            use alpha_g_detector::alpha16::aw_map::TpcWirePosition;
+                            use alpha_g_detector::padwing::map as pm;
+                            let _ = TpcWirePosition::try_from(x).map(|v| (usize::from(v), v.phi()));
+                            let _ = pm::TpcPadColumn::try_from(x).map(|v| (usize::from(v), v.phi()));
+                            let _ = pm::TpcPadRow::try_from(x).map(|v| (usize::from(v), v.z()));
+                            let _ = pm::TpcPwbColumn::try_from(x).map(|v| format!("{v:?}"));
+                            let _ = pm::TpcPwbRow::try_from(x).map(|v| format!("{v:?}"));
+                            let _ = pm::PwbPadColumn::try_from(x).map(|v| format!("{v:?}"));
+                            let _ = pm::PwbPadRow::try_from(x).map(|v| format!("{v:?}"));
+                            n += 7;
+                        }
                         for x in 0..=65535u16 {
                             let _ = padwing::ResetChannelId::try_from(x).map(|v| format!("{v:?}"));
                             let _ = padwing::FpnChannelId::try_from(x).map(|v| format!("{v:?}"));
